@@ -251,6 +251,11 @@ type c06Spec struct {
 	// top-level OP_RETURN followed by 0, 1, 2 or more raw bytes (after Genesis
 	// the script ends there; the bytes still belong to the script code)
 	LockTail       []byte
+	// LockHead is executed in front of everything else in the locking script:
+	// data pushes consumed by an opcode and dropped again (the pushes are part
+	// of the script code; an opcode working in place on its operand would
+	// rewrite them under the signature check that follows)
+	LockHead []byte
 	UnlockCheck    bool
 	UnlockCheckHT  byte
 	UnlockCheckPad int
@@ -348,6 +353,9 @@ func c06Make(r *prng.R, sp *c06Spec) *c06Case {
 		last = 0xae
 	case "two-checks":
 		el = [][]byte{gen.Push(enc(0)), {0xad}, {0xab}, gen.Push(enc(1)), {0xac}}
+	case "bare-checksig": // the key comes with the signature: the script code does not depend on it
+		el = [][]byte{{0xac}}
+		unlockTail = [][]byte{gen.Push(pubs[0].SerialiseCompressed())}
 	}
 	if sp.Verify {
 		el[len(el)-1] = []byte{last + 1}
@@ -372,7 +380,7 @@ func c06Make(r *prng.R, sp *c06Spec) *c06Case {
 	if sp.Not {
 		el = append(el, []byte{0x91})
 	}
-	var lock []byte
+	lock := append([]byte{}, sp.LockHead...)
 	for _, e := range el {
 		lock = append(lock, e...)
 	}
@@ -452,6 +460,39 @@ func c06Make(r *prng.R, sp *c06Spec) *c06Case {
 			b := signDER(privs[key], x[:])
 			reg(b, key, x[:])
 			final[i] = append(b, sl.HashType)
+		case "s-half-order", "s-half-order+1":
+			// a signature whose S is exactly the largest low S (n-1)/2, or one above: nonce and S
+			// are fixed and the private key is solved for (possible because the key, pushed by the
+			// unlocking script, is not part of what is signed)
+			if sp.Kind != "bare-checksig" || key != 0 {
+				final[i] = []byte{}
+				break
+			}
+			k := new(big.Int).SetBytes(r.Bytes(32))
+			k.Mod(k, new(big.Int).Sub(curveN, big.NewInt(1))).Add(k, big.NewInt(1))
+			rx, _ := bec.S256().ScalarBaseMult(k.Bytes())
+			rr := new(big.Int).Mod(rx, curveN)
+			sv := new(big.Int).Rsh(curveN, 1)
+			if sl.Class == "s-half-order+1" {
+				sv.Add(sv, big.NewInt(1))
+			}
+			z := new(big.Int).SetBytes(dem)
+			d := new(big.Int).Mul(sv, k)
+			d.Sub(d, z).Mod(d, curveN)
+			rinv := new(big.Int).ModInverse(rr, curveN)
+			if rr.Sign() == 0 || rinv == nil {
+				final[i] = []byte{}
+				break
+			}
+			d.Mul(d, rinv).Mod(d, curveN)
+			kb := make([]byte, 32)
+			d.FillBytes(kb)
+			cs.Keys[0] = kb
+			privs[0], pubs[0] = keyOf(kb)
+			unlockTail = [][]byte{gen.Push(pubs[0].SerialiseCompressed())}
+			b := (&bec.Signature{R: rr, S: sv}).Serialise()
+			reg(b, 0, dem)
+			final[i] = append(b, sl.HashType)
 		case "high-s":
 			b := flipS(signDER(privs[key], dem))
 			reg(b, key, dem)
@@ -485,6 +526,24 @@ func c06Make(r *prng.R, sp *c06Spec) *c06Case {
 	cs.Tx.Ins[cs.Idx].Unlock = mkUnlock(final)
 	return cs
 }
+
+// c06Heads: <operands> <opcode> DROP – no effect on the stack, every operand a push inside the script
+var c06Heads = func() [][]byte {
+	var out [][]byte
+	for _, h := range []string{
+		"0x03 0xa1b2c3 0x03 0x0f0f0f XOR DROP", "0x03 0xa1b2c3 0x03 0x0f0f0f AND DROP", "0x03 0xa1b2c3 0x03 0x0f0f0f OR DROP", "0x02 0x1234 INVERT DROP",
+		"0x01 0x85 ABS DROP", "0x02 0x0501 1ADD DROP", "0x02 0x0501 NEGATE DROP", "0x01 0x05 4 NUM2BIN DROP", "0x04 0x05000080 BIN2NUM DROP", "0x02 0x0102 3 LSHIFT DROP",
+		"0x02 0x0102 3 RSHIFT DROP", "0x02 0x0102 0x02 0x0304 CAT DROP", "0x03 0x010203 1 SPLIT 2DROP", "0x03 0x010203 SHA256 DROP", "0x03 0xa1b2c3 DUP XOR DROP",
+		"0x02 0x0501 0x02 0x0601 ADD DROP", "0x02 0x0501 0x02 0x0601 MAX DROP", "0x03 0x010203 SIZE 2DROP", "0x02 0x0501 TOALTSTACK",
+	} {
+		b, err := vectorsParse(h)
+		if err != nil {
+			panic("c06Heads: " + h + ": " + err.Error())
+		}
+		out = append(out, b)
+	}
+	return out
+}()
 
 func c06HashType(r *prng.R, fork bool) byte {
 	ht := byte(1 + r.Intn(3))
@@ -557,7 +616,7 @@ func init() {
 			}
 			cs := c06Make(r, sp)
 			cs.Class = class
-			cs.Desc = fmt.Sprintf("%s m=%d n=%d verify=%v not=%v sep=%d/%s slots=%+v keyenc=%v unlocktail=%x unlockcheck=%v/%#x/%d locktail=%x", sp.Kind, sp.M, sp.N, sp.Verify, sp.Not, sp.SepPos, sp.SepKind, sp.Slots, sp.KeyEnc, sp.UnlockTail, sp.UnlockCheck, sp.UnlockCheckHT, sp.UnlockCheckPad, sp.LockTail)
+			cs.Desc = fmt.Sprintf("%s m=%d n=%d verify=%v not=%v sep=%d/%s slots=%+v keyenc=%v unlocktail=%x unlockcheck=%v/%#x/%d locktail=%x lockhead=%x", sp.Kind, sp.M, sp.N, sp.Verify, sp.Not, sp.SepPos, sp.SepKind, sp.Slots, sp.KeyEnc, sp.UnlockTail, sp.UnlockCheck, sp.UnlockCheckHT, sp.UnlockCheckPad, sp.LockTail, sp.LockHead)
 			judge(c, cs)
 		}
 		flagsFor := func(r *prng.R) uint32 {
@@ -619,6 +678,9 @@ func init() {
 									if sp.LockTail == nil && k%3 == 1 { // data pushes in a wider form than necessary behind the check: the script code is hashed as it is written
 										sp.LockTail = [][]byte{{0x4c, 0x01, 0x07, 0x75}, {0x4d, 0x02, 0x00, 0xaa, 0xbb, 0x75}, {0x4e, 0x01, 0x00, 0x00, 0x00, 0x09, 0x75}, {0x4c, 0x00, 0x75}, {0x01, 0x05, 0x75}, {0x4c, 0x03, 0x01, 0x02, 0x03, 0x4d, 0x01, 0x00, 0x51, 0x6d}}[(k/3+sepPos+7)%6]
 									}
+									if k%3 == 2 {
+										sp.LockHead = c06Heads[(k/3+sepPos+len(cl)+len(ke))%len(c06Heads)]
+									}
 									sp.Slots = []c06Slot{slot(r, 0, cl, fork)}
 									if r.Chance(1, 4) && scriptflag.Flag(fl)&scriptflag.VerifySigPushOnly == 0 { // a signature check inside the unlocking script as well
 										sp.UnlockCheck, sp.UnlockCheckPad = true, r.Intn(3)
@@ -637,6 +699,27 @@ func init() {
 							}
 						}
 					}
+				}
+			}
+		}
+		c.Phase("low-s-boundary") // S exactly (n-1)/2 (the largest low S) and one above, with and without the LOW_S flag
+		n = 0
+		for _, cl := range []string{"s-half-order", "s-half-order+1", "correct"} {
+			for _, base := range []uint32{0, uint32(scriptflag.VerifyLowS), uint32(scriptflag.VerifyLowS | scriptflag.VerifyDERSignatures | scriptflag.VerifyStrictEncoding | scriptflag.VerifyNullFail),
+				uint32(scriptflag.VerifyLowS | scriptflag.EnableSighashForkID | scriptflag.UTXOAfterGenesis), uint32(scriptflag.EnableSighashForkID | scriptflag.UTXOAfterGenesis)} {
+				for k := 0; k < 4; k++ {
+					n++
+					cl, base, k := cl, base, k
+					run(n, func(r *prng.R) *c06Spec {
+						fork := scriptflag.Flag(base)&scriptflag.EnableSighashForkID != 0
+						sp := &c06Spec{Kind: "bare-checksig", Not: k%2 == 1, Verify: k == 2, SepPos: -1, SepKind: "plain", Flags: base, KeyEnc: []string{"c"}, N: 1}
+						ht := byte(0x01)
+						if fork {
+							ht = 0x41
+						}
+						sp.Slots = []c06Slot{{Key: 0, Class: cl, HashType: ht}}
+						return sp
+					}, "low-s-boundary:"+cl)
 				}
 			}
 		}
